@@ -274,7 +274,8 @@ PROPERTIES = {
         "bounds": {"quick": {"MAX_CALLS": 16, "MAX_FDS": 8}, "thorough": {"MAX_CALLS": 16, "MAX_FDS": 8}},
         "explanation": "C06: every verification primitive (fetch_mnt_id, verify_same_mnt, verify_is_procfs, try_from_fd) is decided for every kernel answer, and "
                        "ProcfsHandle::open is executed with the procfs resolver replaced by a stub returning an ARBITRARY descriptor: whatever the resolver "
-                       "returns, it leaves open() only after mount-id equality and f_type==procfs were established on that descriptor.",
+                       "returns, it leaves open() only after mount-id equality and f_type==procfs were established on that descriptor; open_follow issues its single following open on "
+                       "(verified parent, last component) only after statx(parent, name) reported the parent's mount id (quick: the scenario in which no earlier call fails; thorough: every call may fail).",
         "outside": "what a real kernel reports for real over-mounts (statx/fstatfs contracts assumed); racing mounts; that fsopen/open_tree handles are private; the resolver walks themselves (C07)",
         "assumptions": ["ProcfsResolver::resolve returns an arbitrary descriptor or error", "statx/fstatfs answers arbitrary but consistent per descriptor"],
         "obligations": [O_FETCH_MNT, O_SAME_MNT, O_IS_PROCFS, O_TRY_FROM_FD, O_OPEN_OKPATH, O_OPEN_LOOKUPFAIL, O_OPEN_UNMASKED, O_OF_LINK, O_OF_LINK_NOFAULT, O_OF_NOTLINK, O_READLINK],
@@ -288,7 +289,7 @@ PROPERTIES = {
     },
     "C07": {
         "bounds": {"quick": {"MAX_CALLS": 16, "MAX_FDS": 8}, "thorough": {"MAX_CALLS": 16, "MAX_FDS": 8}},
-        "explanation": "C07 (partial): the creation-flag refusal of both procfs resolvers is decided for every 32-bit flag word; ProcfsHandle::open's forced O_NOFOLLOW for every flag word (O6.4a); the kernel resolver's fixed confinement mask.",
+        "explanation": "C07 (partial): the creation-flag refusal of both procfs resolvers is decided for every 32-bit flag word; ProcfsHandle::open's forced O_NOFOLLOW for every flag word (O6.4a); the kernel resolver's fixed confinement mask; open_follow refuses creation flags for every flag word and follows exactly the last component of a link path.",
         "outside": "the emulated procfs walk itself ('..', absolute links, final-component table) and equality of outcomes between the two resolvers on a live /proc: the walk (opath_resolve) is a heap-container loop this engine does not finish (DESIGN §1.2)",
         "assumptions": ["opath_resolve replaced by a recording stub in the dispatch harnesses"],
         "obligations": [O_RP_CREAT_O2, O_RP_CREAT_OP, O_RP_MASK, O_RP_DISPATCH, O_WALK_PLAIN, O_WALK_SYMLINK, O_WALK_SLASH, O_OPEN_OKPATH, O_OPEN_UNMASKED, O_OF_LINK, O_OF_LINK_NOFAULT, O_OF_NOTLINK, O_READLINK],
@@ -315,7 +316,7 @@ PROPERTIES = {
     "C05": {
         "explanation": "C05: three layers. (1) wrapper bodies with the boundary at the rustix API: the flags every open/stat wrapper adds, for every flag word. "
                        "(2) the fixed RESOLVE_* masks of both openat2 users for every rflags/oflags. (3) call sites: the operations' harnesses assert for every recorded "
-                       "call that the name is one '/'-free component relative to a descriptor (never AT_FDCWD/absolute), and that opens carry O_NOFOLLOW (create_file, mkdir_all, remove_all scan, procfs open).",
+                       "call that the name is one '/'-free component relative to a descriptor (never AT_FDCWD/absolute), and that opens carry O_NOFOLLOW (create_file, remove_all's scan open, procfs open); mkdir_all's call sites are out of reach (C12).",
         "outside": "call sites inside the emulated walks (do_resolve, opath_resolve: not executable here); the O_CLOEXEC added inside syscalls::openat2 itself (variadic libc::syscall unsupported by Kani: openat2 is stubbed as a whole); 'exactly one textual call site of openat_follow' (syntactic)",
         "assumptions": ["rustix entry points replaced by recording stubs in layer 1", "kernel K / resolver contract stubs in layer 3"],
         "obligations": C05_WRAP + [O_O2_OPEN, O_O2_RESOLVE, O_RP_MASK, O_OPEN_OKPATH] + pick(C14_OPS, "O14.5.base", "O14.6.base") + pick(C13_OBS, "O13.3e", "O13.3b"),
@@ -325,7 +326,7 @@ PROPERTIES = {
 PROPERTIES["C03"] = {
     "explanation": "C03 (assume/guarantee): with the in-root resolver replaced by a stub returning an ARBITRARY in-root descriptor, every mutating or opening call of every Root operation "
                    "is `*at(fd obtained from the resolver for the parent [or opened O_NOFOLLOW|O_DIRECTORY from it by one safe component], one '/'-free name)`; names '.', '..' and '' never reach "
-                   "the kernel where libpathrs itself descends (remove_all, mkdir_all); decided for every path <= L and arbitrary kernel answers.",
+                   "the kernel where libpathrs itself descends in remove_all (mkdir_all's descent is out of reach of the engine: C12, not applicable); decided for every path <= L and arbitrary kernel answers.",
     "outside": "the resolver (C01/C02); attacker interleavings; remove_all's recursion below the first directory listing; hardlink/rename are in the thorough tier of C14",
     "assumptions": ["Resolver::resolve / resolve_partial / Handle::reopen return arbitrary in-root descriptors (contract)", "kernel K"],
     "bounds": {"quick": {"PATH_L": 4}, "thorough": {"PATH_L": 4}},
@@ -333,8 +334,9 @@ PROPERTIES["C03"] = {
 }
 PROPERTIES["C10"] = {
     "explanation": "C10: K lets any call fail with any errno, so every operation harness is also a fault-injection harness (no reachable panic/overflow/index check, unwinding assertions = no unbounded loop, "
-                   "Ok only if the required calls answered Ok). Added here: bounded EAGAIN retry of openat2, errno class mapping (lemma harnesses), fail-closed mount-id probing, handle construction under "
-                   "fd exhaustion and the first use of the global procfs handle.",
+                   "Ok only if the required calls answered Ok). Added here: openat2::resolve's ENOSYS/EMFILE handling after one call, errno class mapping (lemma harnesses), fail-closed mount-id probing, "
+                   "try_from_fd with a failing fstat and the first use of the global procfs handle when every constructor fails (KF1). "
+                   "NOT decided (attempted tier, never finished): the 16-fold EAGAIN retry loop of openat2::resolve and ProcfsHandle::new with every constructor failing.",
     "outside": "faults inside the emulated walks; allocation failure (Kani models allocation as infallible); the Lazy initialisers of fs.protected_symlinks and ProcfsBase::into_path's expect (suspected, not confirmed natively); multi-fault sequences beyond those K generates in one run",
     "assumptions": ["kernel K", "resolver contract stubs"],
     "bounds": {"quick": {"PATH_L": 4}, "thorough": {"PATH_L": 4}},
@@ -360,7 +362,7 @@ NOT_APPLICABLE = {
            "and that only ids <= -4096 cross the C boundary on errors (C11/C17 with store_error as a contract stub).",
 }
 
-# quick tier = one parallel wave per property (<= 12 harnesses); everything else runs in the thorough tier
+# quick tier = per property a set of harnesses that finishes within the 900 s quick budget (<= 8 in parallel); everything else runs in the thorough tier
 QUICK_SETS = {
     "C08": ["O8.4a", "O8.4c", "O8.4d", "O6.4c"],
     "C03": ["O14.0", "O14.1.base", "O14.5.base", "O14.6.base", "O14.7.base", "O14.4.base", "O13.2a", "O13.1a", "O13.1b", "O13.3a"],
